@@ -26,5 +26,7 @@ def check(run):
     common.mc_structs(run, kinds=("identity",))
     common.gen_structs(run, fams1=("ident",), fams2=("rinfo", "ls", "ls2", "meta"))
     run.gen("Gen_Build", consts={"Fam": "ident"}, tag="Gen_Build_ident")
+    # the signing constructors handed caller-assembled identities that declare another signing type, with and without an offline block
+    run.gen("Gen_C06", consts={"Part": "decl"}, tag="Gen_C06_decl")
     run.replay_and_judge()
     return vlib.finish(run, "model_checking", RULE, ASSUME)
